@@ -160,7 +160,7 @@ pub fn decode_forest(d: &mut D, p: &Profile) -> Vec<Ca> {
         let module = d.below(p.modules);
         let not_after = d.pick(&[86400i64 * 365, 86400 * 3, 3600 * 6]);
         let versions = (0..p.versions).map(|v| decode_version(d, p, v)).collect();
-        cas.push(Ca { parent, key: i, module, not_after, cert_fault, versions, extra_res: None, ta_alt: vec![] });
+        cas.push(Ca { parent, key: i, module, not_after, cert_fault, versions, extra_res: None, ta_alt: vec![], sia_under_parent_mft: false });
     }
     // LoopKey(2) needs a grandparent; degrade to LoopKey(1) otherwise
     for i in 0..cas.len() {
